@@ -65,7 +65,7 @@ class LayerRunner:
         def getstack(it, recv, args, kwargs, env, depth, e):
             if is_layer(recv):
                 return ("ext", "stack", [])
-        return {"method:toUpper": up, "method:toLower": down, "method:emitEvent": emit, "method:broadcastEvent": bcast,
+        return {"method:subEmitEvent": emit, "method:subBroadcastEvent": bcast, "method:toUpper": up, "method:toLower": down, "method:emitEvent": emit, "method:broadcastEvent": bcast,
                 "method:getProp": getprop, "method:setProp": setprop, "method:getLayerInterface": iface, "method:getStack": getstack}
 
     def make_layer(self, it, cls):
@@ -84,6 +84,7 @@ class LayerRunner:
     def run(self, cls, method, make_args, cell, domains, props=None):
         """-> (result dict, interp).  make_args(it) -> list of argument values"""
         it = Interp(self.repo, cell, domains, hooks=self.hooks())
+        it.layer_base = self.base
         if props is not None:
             self.props = props
         layer = self.make_layer(it, cls)
